@@ -59,6 +59,30 @@ const STEPS: &[(&str, &str)] = &[
     ("{ while :; do :; done; } & kill -s KILL $!; wait $!; echo st=$?", "parent-kills-child"),
     ("kill -s TERM $$; echo unreachable", "self-kill"),
     ("exit 7", "exit"),
+    // symbolic links (fixture: l -> e, ld -> d, dangling -> nowhere)
+    ("cat <l", "symlink-read"),
+    ("echo S >l; cat <e", "symlink-write"),
+    ("cat <ld/g", "symlink-dir-read"),
+    ("echo x >ld/n; cat <d/n", "symlink-dir-create"),
+    ("cat <dangling; echo $?", "symlink-dangling-read"),
+    ("echo z >dangling; echo $?; cat <nowhere", "symlink-dangling-create"),
+    ("cd ld; pwd; cd ..; pwd", "cd-symlink-logical"),
+    ("cd -P ld; pwd; cd ..; pwd", "cd-symlink-physical"),
+    ("echo ld/* l*", "glob-symlink"),
+    // open file descriptions: offsets shared through dup and fork, O_APPEND, read-write
+    ("exec 3>f; echo a >&3; (echo b >&3); echo c >&3; exec 3>&-; cat <f", "shared-offset-write"),
+    ("exec 3<e2; read x <&3; (read y <&3; echo $y); read z <&3; echo $x $z; exec 3<&-", "shared-offset-read"),
+    ("exec 3>>f 4>>f; echo a >&3; echo b >&4; echo c >&3; exec 3>&- 4>&-; cat <f", "append-two-fds"),
+    ("echo 12345 >f; exec 3<>f; echo X >&3; cat <&3; exec 3>&-; cat <f", "read-write-offset"),
+    ("exec 3>f; exec 4>&3; echo a >&4; echo b >&3; exec 3>&- 4>&-; cat <f", "dup-shared-offset"),
+    ("exec 3>f; echo a >&3; echo b >f; echo c >&3; exec 3>&-; cat <f", "two-descriptions-one-file"),
+    (": >e; cat <e; echo empty", "truncate-by-null-command"),
+    ("exec 3<e; exec 3<&-; cat <&3; echo $?", "closed-after-exec"),
+    ("cat <<E\nhere $((1+1))\nE", "here-document"),
+    ("cat <<E | cat\npiped\nE", "here-document-pipeline"),
+    ("cd d; cd ..; cd -; pwd", "cd-oldpwd"),
+    ("read a b <e2; echo \"$a|$b\"", "read-file"),
+    ("while read l; do echo \"[$l]\"; done <e2", "read-loop"),
 ];
 
 #[derive(Debug, Clone, PartialEq, Eq)]
@@ -78,6 +102,10 @@ fn sim_run(script: &str) -> Obs {
     setup.dirs.push("/tmp/w/d".into());
     setup.files.push(("/tmp/w/e".into(), b"E\n".to_vec(), 0o644));
     setup.files.push(("/tmp/w/d/g".into(), b"G\n".to_vec(), 0o644));
+    setup.files.push(("/tmp/w/e2".into(), b"1\n2 two\n3\n".to_vec(), 0o644));
+    setup.symlinks.push(("/tmp/w/l".into(), "e".into()));
+    setup.symlinks.push(("/tmp/w/ld".into(), "d".into()));
+    setup.symlinks.push(("/tmp/w/dangling".into(), "nowhere".into()));
     setup.cwd = Some("/".into());
     // the simulator's default umask differs from a real process's; start both from 022
     setup.state_hook = Some(std::rc::Rc::new(|st: &mut yash_env::system::r#virtual::SystemState| {
@@ -113,6 +141,9 @@ fn sim_run(script: &str) -> Obs {
                         out.insert(path.clone(), ('d', 0, String::new()));
                         drop(c);
                         walk(st, &format!("{dir}/{name}"), &path, out);
+                    }
+                    FileBody::Symlink { target } => {
+                        out.insert(path, ('l', 0, target.to_string_lossy().into_owned()));
                     }
                     _ => {
                         out.insert(path, ('?', mode, String::new()));
@@ -150,7 +181,11 @@ fn real_run(script: &str, scratch_root: &std::path::Path, n: u64) -> Obs {
     std::fs::create_dir_all(dir.join("d")).unwrap();
     std::fs::write(dir.join("e"), "E\n").unwrap();
     std::fs::write(dir.join("d/g"), "G\n").unwrap();
-    for p in ["e", "d/g"] {
+    std::fs::write(dir.join("e2"), "1\n2 two\n3\n").unwrap();
+    for (l, t) in [("l", "e"), ("ld", "d"), ("dangling", "nowhere")] {
+        std::os::unix::fs::symlink(t, dir.join(l)).unwrap();
+    }
+    for p in ["e", "d/g", "e2"] {
         std::fs::set_permissions(dir.join(p), std::fs::Permissions::from_mode(0o644)).unwrap();
     }
     let exe = std::env::current_exe().unwrap();
@@ -209,7 +244,10 @@ fn real_run(script: &str, scratch_root: &std::path::Path, n: u64) -> Obs {
             let name = e.file_name().to_string_lossy().into_owned();
             let path = if rel.is_empty() { name.clone() } else { format!("{rel}/{name}") };
             let md = e.metadata().unwrap();
-            if md.is_dir() {
+            if md.file_type().is_symlink() {
+                let t = std::fs::read_link(e.path()).map(|t| t.to_string_lossy().into_owned()).unwrap_or_default();
+                out.insert(path, ('l', 0, t));
+            } else if md.is_dir() {
                 out.insert(path.clone(), ('d', 0, String::new()));
                 walk(&e.path(), &path, out);
             } else {
@@ -271,7 +309,7 @@ pub fn run(tier: Tier) -> i32 {
         let n = counter.fetch_add(1, Relaxed);
         let sim = sim_run(&script);
         let real = real_run(&script, &root, n);
-        if real.tree.len() != 3 || !real.stdout.is_empty() {
+        if real.tree.len() != 7 || !real.stdout.is_empty() {
             nontrivial.fetch_add(1, Relaxed);
         }
         if sim != real {
@@ -294,6 +332,11 @@ pub fn run(tier: Tier) -> i32 {
                     class = STEPS[*i].1.to_string();
                     break;
                 }
+            }
+            // The step alphabet has no way to make a directory: a directory that exists only in the
+            // simulated tree was created implicitly by open(O_CREAT) (missing parent directories)
+            if class.is_empty() && sim.tree.iter().any(|(p, e)| e.0 == 'd' && !real.tree.contains_key(p)) {
+                class = "create-missing-parent".into();
             }
             if class.is_empty() {
                 class = format!("combination:{}", prog.iter().map(|i| STEPS[*i].1).collect::<Vec<_>>().join("+"));
